@@ -38,7 +38,7 @@ def _worker(args):
     except Exception as e:
         out.append({'status': 'engine-error', 'detail': traceback.format_exc()[-3000:], 'decisions': prefix, 'instr': 0, 'reach': [],
                     'violations': [], 'assumes': 0, 'asserts': 0, 'asserts_sym': 0, 'wall': 0, 'nobj': 0, 'ninputs': 0, 'ptr_cmp_residue': 0})
-    st = dict(_MC.stats); _MC.stats = {'instr': 0, 'paths': 0, 'queries': 0, 'solver_s': 0.0}
+    st = dict(_MC.stats); _MC.stats = {'instr': 0, 'paths': 0, 'queries': 0, 'solver_s': 0.0, 'ext_queries': 0}
     fx = set(_MC.funcs_executed); _MC.funcs_executed = set()
     mx = set(_MC.models_called); _MC.models_called = set()
     return out, work, st, fx, mx
@@ -55,7 +55,7 @@ def explore(ll, opts, wall_budget, max_paths, log):
     _MC.build_global_template()
     t_parse = time.time() - t0
     ctx = mp.get_context('fork')
-    agg = {'paths': [], 'stats': {'instr': 0, 'paths': 0, 'queries': 0, 'solver_s': 0.0}, 'funcs': set(), 'models': set(),
+    agg = {'paths': [], 'stats': {'instr': 0, 'paths': 0, 'queries': 0, 'solver_s': 0.0, 'ext_queries': 0}, 'funcs': set(), 'models': set(),
            'unexplored': 0, 't_parse': t_parse}
     pool = ctx.Pool(NCPU)
     try:
@@ -77,6 +77,11 @@ def explore(ll, opts, wall_budget, max_paths, log):
             done = [r for r in results if r.ready()]
             if not done:
                 time.sleep(0.005)
+                if time.time() > deadline + 30:
+                    # hard stop: workers stuck in long solver calls are abandoned and counted as unexplored
+                    agg['unexplored'] += len(results) + len(queue); agg['abandoned'] = len(results)
+                    results = []; queue = []
+                    break
                 if time.time() - last > 30:
                     log('  ... %d paths, %d queued, %d in flight, %.0fs' % (len(agg['paths']), len(queue), inflight, time.time() - t0)); last = time.time()
                 continue
@@ -84,7 +89,7 @@ def explore(ll, opts, wall_budget, max_paths, log):
                 results.remove(r); inflight -= 1
                 out, work, st, fx, mx = r.get()
                 agg['paths'].extend(out)
-                for k in st: agg['stats'][k] += st[k]
+                for k in st: agg['stats'][k] = agg['stats'].get(k, 0) + st[k]
                 agg['funcs'] |= fx; agg['models'] |= mx
                 queue.extend(work)
             if time.time() > deadline or len(agg['paths']) >= max_paths:
@@ -232,7 +237,7 @@ def run_check(pid, tier, seed):
             for v in p['violations']: all_viol.append((job, v, p))
         totals['paths'] += len(agg['paths']); totals['ok'] += st.get('ok', 0); totals['infeasible'] += st.get('infeasible', 0)
         totals['inconclusive'] += st.get('inconclusive', 0); totals['violation_paths'] += st.get('violation', 0)
-        totals['queries'] += agg['stats']['queries']; totals['solver_s'] += agg['stats']['solver_s']; totals['unexplored'] += agg['unexplored']
+        totals['queries'] += agg['stats']['queries']; totals['solver_s'] += agg['stats']['solver_s']; totals['ext_queries'] = totals.get('ext_queries', 0) + agg['stats'].get('ext_queries', 0); totals['unexplored'] += agg['unexplored']
         funcs |= agg['funcs']; models |= agg['models']
         log('[%s] job %s: %d paths %s, %d instr, %d queries (%.1fs solver), %d unexplored, %.1fs' %
             (pid, label, len(agg['paths']), st, sum(p['instr'] for p in agg['paths']), agg['stats']['queries'], agg['stats']['solver_s'], agg['unexplored'], agg['wall']))
@@ -337,7 +342,7 @@ def run_check(pid, tier, seed):
             'exhaustive': exhaustive,
             'obligations': totals['obligations'], 'discharged': totals['obligations'] - sum(1 for _ in all_viol if _[1]['kind'] == 'assert'),
             'obligations_needing_solver': totals['obligations_sym'],
-            'solver': 'z3 ' + __import__('z3').get_version_string(), 'solver_queries': totals['queries'], 'solver_s': round(totals['solver_s'], 2),
+            'solver': 'z3 ' + __import__('z3').get_version_string(), 'solver_queries': totals['queries'], 'solver_s': round(totals['solver_s'], 2), 'queries_decided_by_external_solver': totals.get('ext_queries', 0),
             'ir_instructions_executed': totals['instr'],
             'functions_encoded_count': len(funcs),
             'functions_encoded': sorted(f for f in funcs if '3sim' in f)[:400],
